@@ -24,5 +24,5 @@ CONSTANTS
  Cmds <- MCCmds
 CONSTRAINT MCLevel
 PROPERTY StepOK
-INVARIANTS InvConnected InvCanonical InvNoMeta InvRoundTrip InvTreeOf
+INVARIANTS InvConnected InvCanonical InvNoMeta InvRoundTrip InvTreeOf InvWriteTreeImpl InvLogImpl
 CHECK_DEADLOCK FALSE
